@@ -782,8 +782,18 @@ fn drive(sim: &mut Sim, prof: &Profile, rng: &mut Rng, rep: &mut Report, ctype: 
 					},
 				};
 				let amt = if let (Some(k), "staged-mpp-2") = (staged, opts.class) { sim.w.payments[k].declared_total - sim.w.payments[k].amt } else { amt };
-				sim.w.note(format!("SEND-{} node{}->node{} amt={} via {:?}", opts.class, src, dst, amt, chans));
-				let _ = sim.w.send_payment_ex(src, &[(chans, amt)], 80, opts, None);
+				// a sixth of the ordinary single sends pays a registration made with a custom minimum final CLTV delta D,
+				// with a final delta of D-2 (too short by one block once the sender's +1 is counted: must be refused), D-1, D or D+5
+				let (opts, final_cltv) = if opts.class == "exact-registered-amount" && chans.len() == 1 && rng.chance(1, 2) {
+					let d = *rng.pick(&[45u16, 60, 100]);
+					let off = *rng.pick(&[-2i32, -2, -1, 0, 5]);
+					rep.count(if off <= -2 { "c04_sends_below_a_custom_final_cltv_delta" } else { "c04_sends_at_or_above_a_custom_final_cltv_delta" });
+					(SendOpts { custom_final: Some(d), class: if off <= -2 { "short-final-cltv" } else { "custom-final-cltv" }, ..Default::default() }, (d as i32 + off) as u32)
+				} else {
+					(opts, 80)
+				};
+				sim.w.note(format!("SEND-{} node{}->node{} amt={} via {:?} final cltv delta {}", opts.class, src, dst, amt, chans, final_cltv));
+				let _ = sim.w.send_payment_ex(src, &[(chans, amt)], final_cltv, opts, None);
 			},
 			19 => {
 				// a second send under the id of an earlier payment
